@@ -120,6 +120,10 @@ def compare(rec, obs, base=None, failing=None, how=""):
                                 "stderr": obs["err"][-400:]}))
         if prop == "C15":
             bad.append(("C18", sig, {"scenario": sc, "argv": obs["argv"], "expected": rec["code"], "observed": obs["code"]}))
+        if sc["cmd"] == "fix" and not fault and rec["category"] in ("FIXED_AT_LEAST_ONE_FILE", "SUCCESS"):
+            # C10 as well: the result code of a fix run must say, in the scheme the run selected, exactly what was announced
+            bad.append(("C10", "fixed-code-vs-announced:%s:expected=%s:%s:observed=%s" % (sc["sel"], rec["category"], rec["code"], obs["code"]),
+                        {"scenario": sc, "argv": obs["argv"], "expected": rec["code"], "observed": obs["code"]}))
     exits = [e for e in obs["events"] if e["ev"] == "exit"]
     if exits and exits[-1]["category"] != rec["category"] and obs["code"] == rec["code"]:
         bad.append(("C18", "exit-category:%s:expected=%s:observed=%s" % (sc["cmd"], rec["category"], exits[-1]["category"]),
